@@ -1388,6 +1388,107 @@ func typePredicates(repo string) (string, error) {
 		"def typePreds : List (String × String × Bool) :=\n  [" + strings.Join(preds, ",\n   ") + "]\n", nil
 }
 
+// the childAtPath methods (file, message, enum, service): the guards on the path's length and, per
+// path constant, the child list indexed - in source order
+func childAtPaths(repo string) (string, error) {
+	targets := []struct{ file, recv string }{{"file.go", "file"}, {"message.go", "msg"}, {"enum.go", "enum"}, {"service.go", "service"}}
+	var out, disp []string
+	for _, t := range targets {
+		fd := findFunc(parse(filepath.Join(repo, t.file)), t.recv, "childAtPath")
+		if fd == nil {
+			return "", fmt.Errorf("%s: childAtPath of %s not found", t.file, t.recv)
+		}
+		recvName := fd.Recv.List[0].Names[0].Name
+		var steps, cases []string
+		var walk func(list []ast.Stmt) error
+		sel := func(e ast.Expr) (string, bool) { // <recv>.<list>[path[1]]  (optionally followed by .childAtPath(path[2:]))
+			if call, ok := e.(*ast.CallExpr); ok {
+				if s, ok := call.Fun.(*ast.SelectorExpr); ok && s.Sel.Name == "childAtPath" && len(call.Args) == 1 && exprText(call.Args[0]) == "path[2:]" {
+					e = s.X
+				}
+			}
+			ix, ok := e.(*ast.IndexExpr)
+			if !ok || exprText(ix.Index) != "path[1]" {
+				return "", false
+			}
+			return strings.TrimPrefix(exprText(ix.X), recvName+"."), true
+		}
+		walk = func(list []ast.Stmt) error {
+			for _, st := range list {
+				switch x := st.(type) {
+				case *ast.SwitchStmt:
+					tag := ""
+					if x.Tag != nil {
+						tag = exprText(x.Tag)
+					}
+					for _, cl := range x.Body.List {
+						cc := cl.(*ast.CaseClause)
+						var conds []string
+						for _, e := range cc.List {
+							conds = append(conds, exprText(e))
+						}
+						cond := strings.Join(conds, ",")
+						if cc.List == nil {
+							cond = "default"
+						}
+						what := "?"
+						if len(cc.Body) == 1 {
+							switch b := cc.Body[0].(type) {
+							case *ast.ReturnStmt:
+								if len(b.Results) == 1 {
+									if l, ok := sel(b.Results[0]); ok {
+										what = "descend:" + l
+									} else {
+										what = "return " + exprText(b.Results[0])
+									}
+								}
+							case *ast.AssignStmt:
+								if len(b.Rhs) == 1 {
+									if l, ok := sel(b.Rhs[0]); ok {
+										what = "child:" + l
+									}
+								}
+							}
+						}
+						if what == "?" {
+							return fmt.Errorf("%s childAtPath: case %s has an unknown body", t.recv, cond)
+						}
+						if strings.HasPrefix(what, "child:") || strings.HasPrefix(what, "descend:") {
+							// which path constant selects which list
+							k := strings.TrimSpace(strings.TrimPrefix(cond, "path[0] =="))
+							if (tag != "path[0]" && k == cond) || strings.ContainsAny(k, " ,=") {
+								return fmt.Errorf("%s childAtPath: case %q is not a comparison of path[0] with one constant", t.recv, cond)
+							}
+							cases = append(cases, fmt.Sprintf("(%q, %q)", k, what[strings.Index(what, ":")+1:]))
+							what = what[:strings.Index(what, ":")]
+							cond = "path[0] == <constant>"
+						} else if tag != "" {
+							cond = tag + " == " + cond
+						}
+						steps = append(steps, fmt.Sprintf("(%q, %q)", cond, what))
+					}
+				case *ast.ReturnStmt:
+					steps = append(steps, fmt.Sprintf("(%q, %q)", "return", exprText(x.Results[0])))
+				case *ast.DeclStmt:
+				default:
+					return fmt.Errorf("%s childAtPath: statement of kind %T", t.recv, st)
+				}
+			}
+			return nil
+		}
+		if err := walk(fd.Body.List); err != nil {
+			return "", err
+		}
+		out = append(out, fmt.Sprintf("(%q, [%s])", t.recv, strings.Join(steps, ", ")))
+		disp = append(disp, fmt.Sprintf("(%q, [%s])", t.recv, strings.Join(cases, ", ")))
+	}
+	return "/-- the childAtPath methods: (condition, what happens) in source order; `child` / `descend`: element `path[1]` of the\n" +
+		"    list the constant selects is the child that the rest of the path (`path[2:]`) is handed to -/\n" +
+		"def childAtShape : List (String × List (String × String)) :=\n  [" + strings.Join(out, ",\n   ") + "]\n" +
+		"/-- … and which path constant selects which list -/\n" +
+		"def childAtDispatch : List (String × List (String × String)) :=\n  [" + strings.Join(disp, ",\n   ") + "]\n", nil
+}
+
 // the hydrate functions of ast.go: in source order, the registration of the entity itself (`g.add`),
 // every loop over a descriptor list with the hydrate function it feeds, and the other graph calls
 func hydratePhases(repo string) (string, error) {
@@ -1544,7 +1645,7 @@ func genCode(repo string) (map[string]string, error) {
 	tables := []struct {
 		name string
 		gen  func(string) (string, error)
-	}{{"nameHelpers", nameHelpers}, {"acceptOrders", acceptOrders}, {"typePredicates", typePredicates}, {"hydratePhases", hydratePhases}}
+	}{{"nameHelpers", nameHelpers}, {"acceptOrders", acceptOrders}, {"typePredicates", typePredicates}, {"hydratePhases", hydratePhases}, {"childAtPaths", childAtPaths}}
 	for _, g := range tables {
 		t, err := g.gen(repo)
 		if err != nil {
